@@ -9,9 +9,13 @@ RN(q) == LET s == IF q[2] < 0 THEN -1 ELSE 1
              g == RGcd(RAbs(q[1]), RAbs(q[2]))
          IN IF q[1] = 0 THEN <<0, 1>> ELSE <<(s * q[1]) \div g, (s * q[2]) \div g>>
 R(n) == <<n, 1>>
-RAdd(p, q) == RN(<<p[1] * q[2] + q[1] * p[2], p[2] * q[2]>>)
-RSub(p, q) == RN(<<p[1] * q[2] - q[1] * p[2], p[2] * q[2]>>)
-RMul(p, q) == RN(<<p[1] * q[1], p[2] * q[2]>>)
+\* denominators are combined through their gcd and factors are cross-cancelled before multiplying, so that
+\* intermediate products stay small (TLC integers are 32-bit and TLC reports any overflow as an error)
+RAdd(p, q) == LET g == RGcd(p[2], q[2]) IN RN(<<p[1] * (q[2] \div g) + q[1] * (p[2] \div g), (p[2] \div g) * q[2]>>)
+RSub(p, q) == LET g == RGcd(p[2], q[2]) IN RN(<<p[1] * (q[2] \div g) - q[1] * (p[2] \div g), (p[2] \div g) * q[2]>>)
+RMul(p, q) == IF p[1] = 0 \/ q[1] = 0 THEN <<0, 1>>
+              ELSE LET g1 == RGcd(RAbs(p[1]), q[2])  g2 == RGcd(RAbs(q[1]), p[2])
+                   IN RN(<<(p[1] \div g1) * (q[1] \div g2), (p[2] \div g2) * (q[2] \div g1)>>)
 RDiv(p, q) == RN(<<p[1] * q[2], p[2] * q[1]>>)
 RNeg(p) == <<-p[1], p[2]>>
 RLt(p, q) == p[1] * q[2] < q[1] * p[2]
